@@ -72,7 +72,8 @@ def extra(ctx):
                 found.append({"what": "an http.ServeMux is created at %s in %s (assigned to %s): not the admin mux nor the profiling mux"
                                       % (it["Pos"], it["Func"], it["Target"]), "detail": it, "key": "mux:" + it["Pos"]})
             else:
-                found.append({"what": "the server at %s (%s) serves %s, not only the admin mux" % (it["pos"], it["what"], ", ".join(it["leaves"])),
+                found.append({"what": "the server at %s (%s, listening on %s) serves %s: neither the admin mux alone nor the profiling mux on localhost"
+                                      % (it["pos"], it["what"], it.get("addr") or "?", ", ".join(it["leaves"])),
                               "detail": it, "key": "server:" + it["pos"]})
     exp = ["PostInstall", "OptionalAuth", "Gzip", "Ensure"]
     got = [w["kind"] for w in (tab["reg_method"] or [])]
